@@ -254,6 +254,40 @@ theorem cleaned_is_final {s s' : St} {k : K} (h : Reachable s) (hc : s.cleaned =
   · subst e; cases hs with | srcDone hs' => omega
   · subst e; cases hs with | cleanup _ _ hn => rw [hc] at hn; cases hn
 
+/-- No hold is taken on an entry that has been torn down (and is about to be freed): every step that raises the suspension count,
+    other than the teardown's own holds for the stream sources, happens before the teardown and under a hold that already exists -
+    or is the look-up, which finds the entry in the table (the table and the teardown are serialised by the lock queue).
+    `dispatch_read` / `dispatch_write` take a hold in their look-up callback and give it back when their operation is done; in this
+    model that hold plays the part of a channel (`opened` ... `close`), so their zero-length shortcut is the step `zero`. -/
+theorem no_hold_on_torn_entry {s s' : St} {k : K} (h : Reachable s) (hs : Step s k s') (hc : s.count < s'.count) :
+    (∃ n, k = .teardown n) ∨ (s.torn = false ∧ (0 < s.count ∨ k = .lookup)) := by
+  obtain ⟨ac, _, qu, _, _⟩ := inv_reachable h
+  cases hs with
+  | lookup ht => exact Or.inr ⟨ht, Or.inr rfl⟩
+  | opened c hl => exact Or.inr ⟨not_torn_of_pos qu (by omega), Or.inl (by omega)⟩
+  | looked hl => exfalso; revert hc; dsimp only; omega
+  | create c i hm =>
+    have : 0 < s.chans.length := List.length_pos_of_mem hm
+    exact Or.inr ⟨not_torn_of_pos qu (by omega), Or.inl (by omega)⟩
+  | deliver i k hm =>
+    have : 0 < s.ops.length := List.length_pos_of_mem hm
+    exact Or.inr ⟨not_torn_of_pos qu (by omega), Or.inl (by omega)⟩
+  | zero c i k hm =>
+    have : 0 < s.chans.length := List.length_pos_of_mem hm
+    exact Or.inr ⟨not_torn_of_pos qu (by omega), Or.inl (by omega)⟩
+  | begin d hm => exfalso; revert hc; dsimp only; omega
+  | finish d hm => exfalso; revert hc; dsimp only; omega
+  | dispose i hm => exfalso; revert hc; dsimp only; omega
+  | close c hm => exfalso; revert hc; dsimp only; omega
+  | teardown n _ _ => exact Or.inl ⟨n, rfl⟩
+  | srcDone _ => exfalso; revert hc; dsimp only; omega
+  | cleanup _ _ _ => exfalso; revert hc; dsimp only; omega
+
+/-- F37 as found (a regression of the F25 repair, for the convenience calls): the zero-length shortcut took its hold in a later block,
+    with no channel hold and the look-up's hold already given back; the teardown could run first. The late hold is then not a
+    step of the model, and taking it anyway leaves the invariant (a handler call submitted on a torn entry). -/
+def lateZero (s : St) (i k : Nat) : St := { s with dels := (i, k) :: s.dels, submitted := (i, k) :: s.submitted, count := s.count + 1 }
+
 /-! ### What a recorded run shows: suspensions and resumptions of the close queue, handler calls, cleanup handlers -/
 inductive Ev | susp | resume | hbegin | hend | clean
 deriving DecidableEq, Repr
@@ -449,6 +483,17 @@ def witness : List (Nat × Nat × Nat) :=
    (6,9,0), (7,9,0), (6,1,1), (9,2,0), (7,1,1), (10,1,0), (11,0,0), (12,0,0)]
 
 theorem witness_reaches_cleanup : ∃ s, run {} witness = some s ∧ s.cleaned = true ∧ s.returned.length = 3 := by
+  decide
+
+theorem F37_as_found : ∃ s, run {} [(2,0,0), (10,0,0)] = some s ∧ s.torn = true ∧ exec s (5, 9, 0) = none ∧ ¬ Inv (lateZero s 9 0) := by
+  refine ⟨{ lookups := 0, count := 0, torn := true }, by decide, rfl, by decide, ?_⟩
+  intro h
+  have := (h.quiet rfl).2.2.2.1
+  simp [lateZero] at this
+
+/-- repaired: the convenience call holds the entry from its look-up callback (1) until its operation is done (9); the shortcut's hold
+    (5) is taken under it, and the teardown (10) can only follow -/
+theorem F37_fixed : ∃ s, run {} [(1,7,0), (2,0,0), (5,9,0), (6,9,0), (9,7,0), (7,9,0), (10,0,0), (12,0,0)] = some s ∧ s.cleaned = true ∧ s.returned = [(9, 0)] := by
   decide
 
 end IoHold
